@@ -113,6 +113,11 @@ def run(ctx):
                 tasks.append((dd, passes.seq('constant_propagation', 'common_subexp_elimination',
                                              'constant_propagation'), k, opts))
                 tasks.append((dd, 'optimize_copy', k, opts))
+        # Outputs driven directly by logic nets (no 'w' net in front): folding / merging must keep them
+        if d['name'] in ('const_fold', 'consts', 'shared_subexp', 'mixed_alu', 'binop', 'unop', 'repeat_args'):
+            dd = passcheck.design_with_pre(d, ['direct_connect_outputs'])
+            for p in ('optimize', 'constant_propagation', 'common_subexp_elimination'):
+                tasks.append((dd, p, k, opts))
     passcheck.run_family(ctx, 'C04.pass_equiv', tasks, FUNCS,
                          'optimisation pass changed observable behaviour / interface / well-formedness')
     ctx.assume('z3 soundness; spec/netsem.py is the reading of the LogicNet docstring')
